@@ -44,7 +44,7 @@ def load_decoders(ctx):
 
 
 MIN_HITS = {
-    'quick': {"request": 1257021, "prefix": 239782, "extreme_len": 837539, "short": 57834, "decoders_seen": 704},
+    'quick': {"request": 1322576, "prefix": 240800, "extreme_len": 848467, "short": 53551, "decoders_seen": 736},
     'thorough': {"request": 6957792, "prefix": 1138233, "extreme_len": 4452364, "short": 488332, "decoders_seen": 1689},
 }
 
@@ -129,6 +129,8 @@ def valid_corpus(ctx):
     c["verify_hashbuf_digest"] = [d32]
     c["sign_digest"] = [d32]
     c["recover_from_digest"] = [d32]
+    c["recover_from_digest_inner"] = [d32]
+    c["recover_from_message_inner"] = [b"m", b"", d32]
     c["aes_key_iv"] = [bytes([mode, dr, kl, 16]) + gen.rbytes(r, kl + 16) + gen.rbytes(r, 37 if dr == 0 else 48) for mode, kl in ((0, 16), (1, 32), (2, 16), (3, 32)) for dr in (0, 1)]
     return c
 
@@ -261,6 +263,29 @@ def cases(ctx):
                 yield mk(which, kind, gen.rbytes(r, r.choice([1, 2, 5, 33, 65, 100, 300])), "random")
             else:
                 yield mk(which, kind, "".join(r.choice(UNI + list("0123456789abcdef")) for _ in range(r.choice([1, 3, 10, 40]))), "random")
+        # 5b. long runs of one repeated unit, alone and after / before a valid encoding (recursion or quadratic work per repeated unit:
+        # a parser that retries on the remainder, strips one trailing byte at a time, ...). Conditional openers are left to the
+        # dedicated nesting probes below.
+        run_n = [150000] + ([2000000] if t else [])
+        if kind == "bytes":
+            units = [bytes([x]) for x in (0x00, 0x01, 0x02, 0x30, 0x41, 0x43, 0x4B, 0x4C, 0x4D, 0x4E, 0x51, 0x67, 0x68, 0x6A, 0x80, 0x81, 0xAB, 0xC1, 0xC3, 0xFD, 0xFE, 0xFF)] + [b"\x30\x00", b"\x02\x01", b"\x00\x41"]
+        else:
+            units = ["41", "30", "00", "ff", "c1", "01", "OP_1 ", "0 ", " ", "\n", "\t", "/0", "/0'", "1", "z", "=", "\\", "\"", ","]
+        for ui, u in enumerate(units):
+            k += 1
+            if k % N != S and not t:
+                continue
+            enc = (lambda x: bytes(x).hex()) if kind == "bytes" else (lambda x: x)
+            empty = b"" if kind == "bytes" else ""
+            for n_ in run_n:
+                if which in ("addr_from_string", "xprv_from_string", "xpub_from_string", "privkey_from_wif", "addr_serde_json"):
+                    n_ = min(n_, 20000)  # Base58 decoding is quadratic in the text length (time is not part of the property)
+                yield {"k": "dec", "which": which, "cls": "long_run", "run": {"kind": kind, "pre": enc(empty), "unit": enc(u), "n": n_, "post": enc(empty)}}
+                if valid:
+                    v0 = valid[ui % len(valid)]
+                    if len(v0) <= 4096:
+                        yield {"k": "dec", "which": which, "cls": "long_run", "run": {"kind": kind, "pre": enc(v0), "unit": enc(u), "n": n_, "post": enc(empty)}}
+                        yield {"k": "dec", "which": which, "cls": "long_run", "run": {"kind": kind, "pre": enc(empty), "unit": enc(u), "n": n_ // 10, "post": enc(v0)}}
         # 6. long text / structured bombs
         if kind == "text" and S % 8 == 0:
             yield mk(which, kind, "1" * 5000, "long")
@@ -308,9 +333,24 @@ def short_file(f):
     return f
 
 
+def inp(case):
+    """printable form of the input for reports"""
+    if "run" in case:
+        ru = case["run"]
+        return "%s + %s * %d + %s" % (ru["pre"][:80], ru["unit"], ru["n"], ru["post"][:80])
+    return case.get("hex", case.get("text"))
+
+
 def request_of(case):
     which = case["which"]
-    if "hex" in case:
+    if "run" in case:
+        ru = case["run"]
+        if ru["kind"] == "bytes":
+            n = (len(ru["pre"]) + len(ru["unit"]) * ru["n"] + len(ru["post"])) // 2
+        else:
+            n = len((ru["pre"] + ru["post"]).encode("utf8", "surrogatepass")) + len(ru["unit"].encode("utf8")) * ru["n"]
+        req = {"op": "decode", "which": which, "run": {q: ru[q] for q in ("pre", "unit", "n", "post")}}
+    elif "hex" in case:
         n = len(case["hex"]) // 2
         req = {"op": "decode", "which": which, "hex": case["hex"] if which != "aes_key_iv" or n >= 4 else case["hex"] + "00" * (4 - n)}
     else:
@@ -345,29 +385,29 @@ def assess(ctx, case, n, r, build):
         items = tj.items() if isinstance(tj, dict) and "panic" not in tj else [("value", tj)]
         for name, v in items:
             if isinstance(v, dict) and "panic" in v:
-                ctx.viol("decoder %s accepts a value on which the library's own accessor (%s) panics: %s @ %s%s" % (which, name, norm(v["panic"]["msg"]), short_file(v["panic"]["file"]), tag), {"input": case.get("hex", case.get("text"))[:300]})
+                ctx.viol("decoder %s accepts a value on which the library's own accessor (%s) panics: %s @ %s%s" % (which, name, norm(v["panic"]["msg"]), short_file(v["panic"]["file"]), tag), {"input": inp(case)[:300]})
     elif "err" in r:
         ctx.hit("rejected")
         ctx.maxstat("peak_bytes_per_input_byte[%s]" % which, (r["peak"]) / max(n, 64))
     elif "panic" in r:
-        ctx.viol("decoder %s panics: %s @ %s%s" % (which, norm(r["panic"]["msg"]), short_file(r["panic"]["file"]), tag), {"input": case.get("hex", case.get("text"))[:300], "cls": case["cls"]})
+        ctx.viol("decoder %s panics: %s @ %s%s" % (which, norm(r["panic"]["msg"]), short_file(r["panic"]["file"]), tag), {"input": inp(case)[:300], "cls": case["cls"]})
     elif "alloc_guard" in r:
         g = r["alloc_guard"]
-        ctx.viol("decoder %s exceeds the memory bound C + K * input length (%s)%s" % (which, "one allocation larger than the whole bound" if g["size"] > g["limit"] else "cumulative", tag), {"input": case.get("hex", case.get("text"))[:300], "guard": g, "input_len": n})
+        ctx.viol("decoder %s exceeds the memory bound C + K * input length (%s)%s" % (which, "one allocation larger than the whole bound" if g["size"] > g["limit"] else "cumulative", tag), {"input": inp(case)[:300], "guard": g, "input_len": n})
     elif "miri_ub" in r:
-        ctx.viol("decoder %s: Miri reports an error: %s" % (which, norm(r["miri_ub"])), {"input": case.get("hex", case.get("text"))[:300], "stderr": r.get("stderr", "")[-1500:]})
+        ctx.viol("decoder %s: Miri reports an error: %s" % (which, norm(r["miri_ub"])), {"input": inp(case)[:300], "stderr": r.get("stderr", "")[-1500:]})
     elif "death" in r:
         d = r["death"]
         err = d.get("stderr", "")
         asan = d.get("code") == 99 or "AddressSanitizer" in err
         if case["cls"] == "deep" and (not asan or "stack-overflow" in err):
             # same symptom in every build: recursion over nested conditionals exhausts the native stack
-            ctx.viol("decoder %s kills the process on deeply nested input (native stack overflow)" % which, {"input": case.get("hex", case.get("text"))[:120], "build": build, "death": {q: d[q] for q in d if q != "stderr"}})
+            ctx.viol("decoder %s kills the process on deeply nested input (native stack overflow)" % which, {"input": inp(case)[:120], "build": build, "death": {q: d[q] for q in d if q != "stderr"}})
         elif asan:
             first = [l for l in err.splitlines() if "ERROR: AddressSanitizer" in l][:1]
-            ctx.viol("decoder %s: AddressSanitizer report: %s" % (which, norm(first[0].split("AddressSanitizer:")[-1].split(" on ")[0]) if first else "unknown"), {"input": case.get("hex", case.get("text"))[:300], "stderr": err[:1500]})
+            ctx.viol("decoder %s: AddressSanitizer report: %s" % (which, norm(first[0].split("AddressSanitizer:")[-1].split(" on ")[0]) if first else "unknown"), {"input": inp(case)[:300], "stderr": err[:1500]})
         else:
-            ctx.viol("decoder %s kills the process (%s)%s" % (which, d.get("signal") or d.get("code"), tag), {"input": case.get("hex", case.get("text"))[:300], "cls": case["cls"], "death": {q: d[q] for q in d if q != "stderr"}})
+            ctx.viol("decoder %s kills the process (%s)%s" % (which, d.get("signal") or d.get("code"), tag), {"input": inp(case)[:300], "cls": case["cls"], "death": {q: d[q] for q in d if q != "stderr"}})
 
 def fuzz_stage(modname, tier, seed, target, seconds, to_cases, seeds=(), max_len=1024):
     """thorough only: run the libFuzzer input finder, convert artifacts + corpus into cases and re-judge them with this module's oracle"""
@@ -429,7 +469,7 @@ def extra_stages(tier, seed, res):
         per = {}
         for case in cases(ctx):
             w = case["which"]
-            if w not in MIRI_DECODERS or case["cls"] in ("long", "deep"):
+            if w not in MIRI_DECODERS or case["cls"] in ("long", "deep", "long_run"):
                 continue
             if len(case.get("hex", case.get("text", ""))) > 1200:
                 continue
